@@ -64,11 +64,12 @@ ASSUME TLCSet(9, Norm([k \in 1..Len(IdxSeqs) |-> Parse(IdxSeqs[k])]))
 \* path sweeps: the nested-access builtins on maps / vectors with missing, nil-valued and non-collection levels,
 \* with every path of a small family (keys, indices, mixed, non-keys)
 PathColls == <<"{:a nil}", "{:a {:b 1}}", "{:a {:b nil}}", "{}", "{:a 1}", "nil", "[nil]", "[[1 2] {:a 3}]",
-               "{:a [1 {:b 2}]}", "{\"a\" {:b 1} :a {\"b\" 2}}", "{:a {}}", "[]", "{:a false}">>
+               "{:a [1 {:b 2}]}", "{\"a\" {:b 1} :a {\"b\" 2}}", "{:a {}}", "[]", "{:a false}", "#{:a}", "{:a #{:b}}", "(1 2)", "{:a (1 2)}">>
 PathPaths == <<"[]", "[:a]", "[:a :b]", "[:a :b :c]", "[:b :a]", "[0]", "[0 1]", "[1 :a]", "[:a 1 :b]", "[:a 0]",
                "[\"a\" :b]", "[:a \"b\"]", "[:c 7]", "[nil]", "(:a :b)", "[:a nil]">>
 PathCalls == <<"(get-in _S _I)", "(assoc-in _S _I 9)", "(update-in _S _I list)", "(assoc-in _S _I nil)",
-               "(update-in _S _I inc)", "(update-in _S _I (fn [x] (if (nil? x) :none x)))">>
+               "(update-in _S _I inc)", "(update-in _S _I (fn [x] (if (nil? x) :none x)))", "(update-in _S _I (fn [x] :b))",
+               "(update _S (first _I) (fn [x] :b))", "(assoc _S 0 :x (first _I))", "(assoc _S :a 1 (first _I))">>
 ASSUME TLCSet(10, Norm([k \in 1..Len(PathCalls) |-> Parse(PathCalls[k])]))
 ASSUME TLCSet(11, Norm([k \in 1..Len(PathColls) |-> Parse(PathColls[k])]))
 ASSUME TLCSet(12, Norm([k \in 1..Len(PathPaths) |-> Parse(PathPaths[k])]))
